@@ -125,6 +125,7 @@ func checkStream(c *mon.C, shapes []gen.Shape, side ref.Side, nplans int) bool {
 			if o.CheckUTF8 && c.Rng.Intn(2) == 0 {
 				frames = framesU
 			}
+			o.ContRead = k&16 == 16 // the continuation handler reads the continuation bodies itself
 		case "reader-maxframe":
 			// MaxFrameSize equal to the largest frame of the stream (or one more): nothing may be refused
 			o.Entry = "reader"
